@@ -45,7 +45,13 @@ def a_st_size(ex, st, obj):
     return VInt(FSIZE(p)) if p is not None else VUnk("st_size")
 
 
+def with_file(ex, st, cm, phase):
+    if phase == "enter":
+        return [(st, cm)]
+
+
 def install(reg):
+    reg.ext_models[("with", "File")] = with_file
     reg.ext_models[("new", "pathlib.Path")] = new_path
     reg.ext_models[("new", "Path")] = new_path
     reg.method_models[("Path", "stat")] = m_stat
@@ -62,8 +68,14 @@ class ReadFileExecutor(Executor):
         return super().construct(st, t, args, kwargs, node)
 
     def b_open(self, st, args, kwargs, node):
+        """open(path, 'rb'): ASSUMED to raise only the OSError family."""
+        from pyvc.values import VExc
+        bad = st.fork()
+        t = z3.Int(fresh_name("exc"))
+        bad.assume(z3.And(t >= 0, t < len(self.uni.names), self.uni.subclass_term(t, "OSError")))
+        self.raise_in(bad, VExc(t, {"site": "open"}))
         st.ghost["opened"] = st.ghost.get("opened", 0) + 1
-        return self.havoc_call(st, "open", args, node)
+        return [(st, VExt("File"))]
 
     def call(self, st, f, args, kwargs, node):
         if isinstance(f, VTuple) and len(f.items) == 2 and all(isinstance(x, VStr) for x in f.items):
